@@ -28,8 +28,10 @@ def register(hook: PluginManager, run_arg: RunArg) -> None:
         hook.register(FilterLambda)
         hook.register(FilterByModuleName)
     else:
-        hook.register(FilterLambda)
+        # FilterMainScript always returns a result. Register it first so that
+        # FilterLambda is called before it.
         hook.register(FilterMainScript)
+        hook.register(FilterLambda)
     hook.register(GlobalTraceFunc)
     hook.register(TraceFuncCreator)
     hook.register(CallableComposer)
